@@ -28,7 +28,11 @@ RULE = (
     "Factory spelling of default_if_none); in the class modes the class has 1-3 fields that SHARE the one converter object "
     "(harness-only variation: or equal objects built separately) plus 0-2 fields with a converter of their own in between, "
     "every sharing field is converted (each __init__ line / assignment must hand the converter its own field) and every "
-    "small tree is also run on a three-sharing-field class; non-trivial = depth>=2 or a Converter. "
+    "small tree is also run on a three-sharing-field class; in the default mode the fields are init=True or init=False (harness-only), the default is plain or a Factory, "
+    "and a default that comes again is another instance of the SAME class, so calls and fresh factory results are judged per "
+    "instance; a block of 8 object-producing trees (default_if_none(factory=) alone, in pipes, under optional, next to "
+    "Converters) is used on [None, None, token, None] in every mode and default variant; a callback that runs outside a use "
+    "(class construction) is an outcome of its own; non-trivial = depth>=2 or a Converter. "
     "tobool: every letter-case variant of the 12 documented words, bools, ints and int-subclass instances, "
     "float/complex/Decimal/Fraction equal to -1,0,1,2, a pool of 23 unrelated objects, 54 near-miss strings (whitespace, "
     "Unicode look-alikes, Kelvin sign, dotted I) and random one-edit neighbours of the words in random case. din: all "
